@@ -55,7 +55,7 @@ class FuncSource(object):
 def find_function(modname, qualname):
     tree, lines, path = parse_module(modname)
     node = tree
-    for part in qualname.split("."):
+    for part in [p for p in qualname.split(".") if p != "<locals>"]:
         found = None
         for child in ast.iter_child_nodes(node) if not isinstance(node, ast.Module) else node.body:
             if isinstance(child, (ast.FunctionDef, ast.AsyncFunctionDef, ast.ClassDef)) and child.name == part:
